@@ -18,7 +18,7 @@ func init() {
 		ID:          "C14",
 		Explanation: "Decided: (literal) the byte class encodeString emits unescaped is exactly printable ASCII minus the quote and the backslash, every named escape denotes its byte, and program string constants reach JavaScript only through encodeString — evaluated over all 256 byte values; (dispatch) string conversions, range, copy and append select the rune or the byte helper by the element type; (bounds) string indexing and slicing carry a run-time bounds check and $substring guards its optional parameter; (utf8) the UTF-8 decoder/encoder and the UTF-16 transcoders contain every boundary constant of the encodings, and the decoder's returned width matches the branch; (key) the string map key is injective. NOT decided: $decodeRune/$encodeRune correctness on all byte sequences, comparison semantics.",
 		Assumptions: []string{"UTF-8 (RFC 3629) and UTF-16 boundary constants are frozen in the checker with the clause they come from", "a JavaScript string holds one byte per UTF-16 code unit in gopherjs' string representation"},
-		Rules:       []RuleFunc{ruleC14Literal, ruleC14Dispatch, ruleC14Bounds, ruleC14UTF8, ruleC15InjectStringOnly, ruleNamedLookThrough, ruleSubarrayOffset, ruleC16Space},
+		Rules:       []RuleFunc{ruleC14Literal, ruleC14Dispatch, ruleC14Bounds, ruleC14UTF8, ruleC15InjectStringOnly, ruleNamedLookThrough, ruleSubarrayOffset, ruleC16Space, ruleSliceElemOffset},
 	})
 }
 
